@@ -1,6 +1,7 @@
 INIT JInit
 NEXT JNext
 CONSTANTS
+  CharsetClass <- JCharsetClass
   DelimWithCRLF = TRUE
   PartPool = {}
   EnvPool = {}
